@@ -42,7 +42,7 @@ fn variant_of(k: usize, quick: bool) -> usize {
     if quick { [0, 3, 5, 6].get(k).copied().unwrap_or(usize::MAX) } else { k }
 }
 
-fn check(c: &Case, quick: bool) -> Result<String, (String, String, String)> {
+fn check(c: &Case, quick: bool, far: (u32, u32)) -> Result<String, (String, String, String)> {
     let ls = layouts(quick);
     let (lname, layout) = &ls[c.layout];
     let (kind, raw) = FAULTS[c.fault];
@@ -57,8 +57,50 @@ fn check(c: &Case, quick: bool) -> Result<String, (String, String, String)> {
     if !span.eq_ignore_ascii_case(raw) {
         return Err(("machinery".into(), format!("position map says row {} cols {}..{} = {:?}, expected {:?}", pos.row, pos.col_first, pos.col_last, span, raw), printed.text));
     }
+    // far: the same program pushed down by `far.0` comment / blank lines and, where the injected statement stands alone
+    // on its line, pushed right by a string assignment of `far.1` columns before it on the same line
+    let mut printed = printed;
+    let mut pos = pos;
+    if far.1 > 0 {
+        if line.trim() != raw && !line.trim().eq_ignore_ascii_case(raw) {
+            return Ok("not-generated:the statement shares its line".into());
+        }
+        let indent: String = line.chars().take(pos.col_first as usize - 1).collect();
+        let filler = format!("{}ZZ$ = \"{}\": ", indent, "x".repeat(far.1 as usize - indent.chars().count() - 9));
+        let mut out = String::new();
+        let mut rest = printed.text.as_str();
+        // rebuild the text line by line, keeping the line ends
+        let mut row = 1u32;
+        while !rest.is_empty() {
+            let end = rest.find(['\r', '\n']).map(|i| if rest[i..].starts_with("\r\n") { i + 2 } else { i + 1 }).unwrap_or(rest.len());
+            if row == pos.row {
+                out.push_str(&filler);
+                out.push_str(&rest[pos.col_first as usize - 1..end]);
+            } else {
+                out.push_str(&rest[..end]);
+            }
+            rest = &rest[end..];
+            row += 1;
+        }
+        let shift = filler.chars().count() as u32 - (pos.col_first - 1);
+        pos.col_first += shift;
+        pos.col_last += shift;
+        printed.text = out;
+    }
+    if far.0 > 0 {
+        let eol = layout.eol;
+        let mut pre = String::with_capacity(far.0 as usize * 3);
+        for i in 0..far.0 {
+            if i % 2 == 0 {
+                pre.push('\'');
+            }
+            pre.push_str(eol);
+        }
+        printed.text = format!("{}{}", pre, printed.text);
+        pos.row += far.0;
+    }
     let o = run_pipeline(&printed.text, &RunOpts { budget: 300_000, ..RunOpts::default() });
-    let label = format!("{} `{}` at {} (variant {}, layout {})", kind, raw, b.site_desc, c.variant, lname);
+    let label = format!("{} `{}` at {} (variant {}, layout {}{})", kind, raw, b.site_desc, c.variant, lname, if far != (0, 0) { format!(", moved down {} rows and right {} columns", far.0, far.1) } else { String::new() });
     let (family, row, col, stack): (&str, u32, u32, Option<Vec<u32>>) = match &o.end {
         End::ParseError { row, col, .. } => ("parse", *row, *col, None),
         End::LintError { row, col, .. } => ("lint", *row, *col, None),
@@ -101,7 +143,7 @@ fn check(c: &Case, quick: bool) -> Result<String, (String, String, String)> {
         let mut want = vec![pos.row];
         for id in &b.chain {
             match printed.pos.get(id) {
-                Some(p) => want.push(p.row),
+                Some(p) => want.push(p.row + far.0),
                 None => return Err(("machinery".into(), "no position for a call site".into(), printed.text)),
             }
         }
@@ -182,6 +224,27 @@ pub fn worker(case: &Value) -> Value {
         bads.truncate(30);
         return json!({"n": n, "nontrivial": n, "hist": hist, "bad": bads});
     }
+    if let Some(far) = case["far"].as_array() {
+        let far = (far[0].as_u64().unwrap_or(0) as u32, far[1].as_u64().unwrap_or(0) as u32);
+        let mut hist: BTreeMap<String, u64> = BTreeMap::new();
+        let mut bads = vec![];
+        let mut n = 0;
+        let c = Case { variant: case["variant"].as_u64().unwrap_or(0) as usize, site: case["site"].as_u64().unwrap_or(0) as usize, fault: case["fault"].as_u64().unwrap_or(0) as usize, layout: case["layout"].as_u64().unwrap_or(0) as usize };
+        match check(&c, quick, far) {
+            Ok(k) if k.starts_with("not-generated") => *hist.entry(k).or_insert(0) += 1,
+            Ok(k) => {
+                n += 1;
+                *hist.entry(format!("located far away:{}", k)).or_insert(0) += 1
+            }
+            Err((class, msg, _)) if class == "machinery" => return json!({"machinery": msg}),
+            Err((class, msg, text)) => {
+                n += 1;
+                *hist.entry("differ".into()).or_insert(0) += 1;
+                bads.push(json!({"sig": format!("C11|far|{}", class), "summary": msg, "text": truncate_text(&text, 2000), "case": case.clone()}));
+            }
+        }
+        return json!({"n": n, "nontrivial": n, "hist": hist, "bad": bads});
+    }
     let sites = total_sites();
     let nl = layouts(quick).len();
     let mut hist: BTreeMap<String, u64> = BTreeMap::new();
@@ -196,7 +259,7 @@ pub fn worker(case: &Value) -> Value {
             continue;
         }
         n += 1;
-        match check(&c, quick) {
+        match check(&c, quick, (0, 0)) {
             Ok(k) => *hist.entry(format!("located:{}", k)).or_insert(0) += 1,
             Err((class, msg, text)) if class == "machinery" => machinery.push(format!("{} — {}", msg, truncate_text(&text, 200))),
             Err((class, msg, text)) => {
@@ -236,6 +299,22 @@ pub fn drive(tier: &str) -> i32 {
     for k in 0..variants {
         cases.push(json!({"quick": quick, "unterminated": variant_of(k, quick)}));
     }
+    // far away: the fault beyond row 65 535 / beyond column 255 and 65 535
+    let mut far_programs = 0u64;
+    {
+        let shifts: Vec<(u32, u32)> = if quick { vec![(65535, 0), (65536, 0), (0, 256), (0, 65536), (300, 300)] } else { vec![(254, 0), (65534, 0), (65535, 0), (65536, 0), (70001, 0), (0, 255), (0, 256), (0, 257), (0, 65535), (0, 65536), (0, 70001), (300, 300), (65536, 65536)] };
+        let fault_menu: Vec<usize> = if quick { vec![0, 4, 6, 8, 10, 12, 14] } else { (0..FAULTS.len()).collect() };
+        for site in (0..sites).step_by(if quick { 3 } else { 1 }) {
+            for (fi, &fault) in fault_menu.iter().enumerate() {
+                for (si, far) in shifts.iter().enumerate() {
+                    // the three line-end conventions in rotation
+                    let layout = (site + fi + si) % 3 * (nl / 3);
+                    cases.push(json!({"quick": quick, "far": [far.0, far.1], "variant": if quick { 0 } else { (site + fi) % VARIANTS }, "site": site, "fault": fault.min(FAULTS.len() - 1), "layout": layout}));
+                    far_programs += 1;
+                }
+            }
+        }
+    }
     let total_cases = cases.len();
     let cap = run.wall_cap_s;
     let t0 = run.reporter.start;
@@ -245,9 +324,9 @@ pub fn drive(tier: &str) -> i32 {
         run.capped = true;
     }
     let mut ev = Evidence::new("exploration");
-    ev.set("rule", "base programs (IF > FOR > SELECT and WHILE > DO at module level; SUB Outer -> SUB Inner -> FUNCTION Deep% called from inside blocks; 8 variants: NEXT with / without counter, DO forms, textual order of the subprograms, ordinary / STATIC subprograms) x every injection site (first / inner / last statement of the module, of every block and of every subprogram, single-line IF bodies; call depth 0..3) x 16 fault statements of 7 kinds (syntax, type mismatch, undefined label, argument count, division by zero, subscript out of range, overflow) x layouts (LF / CR LF / CR x blank lines x trailing comments x colon-joined statements x keyword case x indentation). Oracle: the printer's position map (self-checked against the text): stage and kind of the error, row = row of the injected statement, column inside its text (syntax errors: up to two columns after it), and for run-time errors the rows of the active call sites, innermost first. unterminated: every base program with one closing line (NEXT, WEND, LOOP, END IF, END SELECT, END SUB, END FUNCTION) removed, under LF / CR LF / CR line ends with and without a final line end: a syntax error whose row and column are the same under the three conventions and lie inside the text or immediately at its end.");
+    ev.set("rule", "base programs (IF > FOR > SELECT and WHILE > DO at module level; SUB Outer -> SUB Inner -> FUNCTION Deep% called from inside blocks; 8 variants: NEXT with / without counter, DO forms, textual order of the subprograms, ordinary / STATIC subprograms) x every injection site (first / inner / last statement of the module, of every block and of every subprogram, single-line IF bodies; call depth 0..3) x 16 fault statements of 7 kinds (syntax, type mismatch, undefined label, argument count, division by zero, subscript out of range, overflow) x layouts (LF / CR LF / CR x blank lines x trailing comments x colon-joined statements x keyword case x indentation). Oracle: the printer's position map (self-checked against the text): stage and kind of the error, row = row of the injected statement, column inside its text (syntax errors: up to two columns after it), and for run-time errors the rows of the active call sites, innermost first. far: the same programs pushed down by 65 535 / 65 536 (thorough also 254, 65 534, 70 001) comment and blank lines and / or pushed right by a string assignment of 256 / 65 536 (thorough also 255, 257, 65 535, 70 001) columns on the line of the injected statement — rows, columns and call-site rows must follow. unterminated: every base program with one closing line (NEXT, WEND, LOOP, END IF, END SELECT, END SUB, END FUNCTION) removed, under LF / CR LF / CR line ends with and without a final line end: a syntax error whose row and column are the same under the three conventions and lie inside the text or immediately at its end.");
     ev.set("exhaustive", !run.capped);
-    ev.set("plan", json!({"variants": variants, "sites": sites, "faults": FAULTS.len(), "layouts": nl, "programs": total}));
+    ev.set("plan", json!({"variants": variants, "sites": sites, "faults": FAULTS.len(), "layouts": nl, "programs": total, "far_programs": far_programs}));
     ev.set("distinct_nontrivial", run.nontrivial);
     ev.assume("syntax faults are local to one simple statement, so the offending statement is unambiguous; faults that change the block structure are left to C07");
     run.finish(ev)
